@@ -23,8 +23,12 @@ type Config struct {
 	MultiRes   bool
 	Consts     bool
 	Methods    bool
-	ByteConv   bool // conversions spelled byte(x)
-	IncDec32   bool // x++ / x += on uint32 and byte variables
+	ByteConv   bool     // conversions spelled byte(x)
+	IncDec32   bool     // x++ / x += on uint32 and byte variables
+	NoBlocks   bool     // no nested blocks
+	NoCompl    bool     // no ^x
+	NoCalls    bool     // functions do not call each other (so each can be rejected on its own)
+	Inject     bool     // insert out-of-subset / look-alike statements at random positions (C02)
 	Comments   []string // comment texts to sprinkle (C05)
 	StrLits    []string // string literal contents to use (C05)
 }
@@ -40,7 +44,7 @@ type varInfo struct {
 	ptr     bool // var-declared or loop variable: assignable
 	loopVar bool // loop counters are not assigned in the body (termination)
 	used    bool
-	declIdx int     // index of the declaring statement in its list (-1 for parameters)
+	declIdx int // index of the declaring statement in its list (-1 for parameters)
 	list    *[]*Stmt
 }
 
@@ -53,17 +57,18 @@ const (
 )
 
 type gen struct {
-	r       *rng.R
-	cfg     Config
-	pkg     *Package
-	frames  [][]*varInfo
-	fn      *Func
-	nv      int
-	structs []*StructDecl
-	funcs   []*Func
-	consts  []*ConstDecl
-	deps    map[string]bool
-	inLoop  int
+	r        *rng.R
+	cfg      Config
+	pkg      *Package
+	frames   [][]*varInfo
+	fn       *Func
+	nv       int
+	structs  []*StructDecl
+	funcs    []*Func
+	consts   []*ConstDecl
+	deps     map[string]bool
+	inLoop   int
+	injected int
 }
 
 var interesting = []uint64{0, 1, 2, 3, 7, 8, 63, 64, 255, 256, 65535, 1 << 31, 1<<32 - 1, 1 << 32, 1<<63 - 1, 1 << 63, 1<<64 - 1}
@@ -92,8 +97,8 @@ func (g *gen) val(t *Type) uint64 {
 	return v
 }
 
-func (g *gen) push()  { g.frames = append(g.frames, nil) }
-func (g *gen) pop()   { g.frames = g.frames[:len(g.frames)-1] }
+func (g *gen) push() { g.frames = append(g.frames, nil) }
+func (g *gen) pop()  { g.frames = g.frames[:len(g.frames)-1] }
 func (g *gen) declare(v *varInfo) {
 	g.frames[len(g.frames)-1] = append(g.frames[len(g.frames)-1], v)
 }
@@ -179,9 +184,11 @@ func (g *gen) intType() *Type {
 }
 
 func mk(op string, t *Type, args ...*Expr) *Expr { return &Expr{Op: op, T: t, Args: args} }
-func Lit(t *Type, v uint64) *Expr                 { return &Expr{Op: "lit", T: t, Val: v} }
-func Var(v *varInfo) *Expr                        { v.used = true; return &Expr{Op: "var", T: v.t, Name: v.name} }
-func Bin(op string, t *Type, a, b *Expr) *Expr    { return &Expr{Op: "bin", T: t, Name: op, Args: []*Expr{a, b}} }
+func Lit(t *Type, v uint64) *Expr                { return &Expr{Op: "lit", T: t, Val: v} }
+func Var(v *varInfo) *Expr                       { v.used = true; return &Expr{Op: "var", T: v.t, Name: v.name} }
+func Bin(op string, t *Type, a, b *Expr) *Expr {
+	return &Expr{Op: "bin", T: t, Name: op, Args: []*Expr{a, b}}
+}
 
 func convName(t *Type) string {
 	switch t.K {
@@ -269,7 +276,7 @@ func (g *gen) intExpr(t *Type, depth int) *Expr {
 				cands = append(cands, f)
 			}
 		}
-		if len(cands) > 0 && g.inLoop == 0 {
+		if len(cands) > 0 && g.inLoop == 0 && !g.cfg.NoCalls {
 			f := rng.Pick(g.r, cands)
 			g.deps[f.Name] = true
 			var args []*Expr
@@ -305,7 +312,9 @@ func (g *gen) intExpr(t *Type, depth int) *Expr {
 			}
 		}
 	case 13:
-		return mk("compl", t, g.nc(g.intExpr(t, depth-1)))
+		if !g.cfg.NoCompl {
+			return mk("compl", t, g.nc(g.intExpr(t, depth-1)))
+		}
 	}
 	return g.leafInt(t)
 }
@@ -618,7 +627,94 @@ func (g *gen) stmt(u usage, depth int, ss *[]*Stmt, results []*Type) *Stmt {
 	return g.comment(g.stmt1(u, depth, ss, results))
 }
 
+// inject returns an out-of-subset statement (raw Go) that is meaningful at this
+// position: it reads and writes sink and, where it declares a name, hides a
+// visible variable that later statements may read.
+func (g *gen) inject(u usage, results []*Type) *Stmt {
+	u64s := g.varsOf(func(v *varInfo) bool { return v.t.K == KU64 && v.name != "sink" })
+	hide := "hidden"
+	if len(u64s) > 0 {
+		hide = rng.Pick(g.r, u64s).name
+	}
+	ret := ""
+	if u == uReturned {
+		var es []string
+		for _, t := range results {
+			switch t.K {
+			case KBool:
+				es = append(es, "sink > 3")
+			case KU64:
+				es = append(es, "sink + 1")
+			default:
+				es = append(es, fmt.Sprintf("%s(sink)", convName(t)))
+			}
+		}
+		ret = "return " + joinStr(es, ", ")
+	}
+	k := g.r.Intn(5) + 1
+	var cands []string
+	cands = append(cands,
+		fmt.Sprintf("if %s := sink + %d; %s > 2 {\n\tsink = sink + %s\n}", hide, k, hide, hide),
+		fmt.Sprintf("sink *= %d", k+1),
+		fmt.Sprintf("sink <<= %d", k),
+		fmt.Sprintf("sink /= %d", k+1),
+		fmt.Sprintf("sink %%= %d", k+6),
+		fmt.Sprintf("sink &^= %d", k),
+		fmt.Sprintf("sink = sink &^ %d", k),
+		"sink = -sink",
+		fmt.Sprintf("switch {\ncase sink > %d:\n\tsink = sink + 1\ndefault:\n\tsink = sink + 2\n}", k),
+		fmt.Sprintf("switch sink %% 3 {\ncase 1:\n\tsink = sink + %d\ncase 2:\n\tsink = sink * 2\n}", k),
+		fmt.Sprintf("t1, t2 := sink, sink+%d\nsink = t1 + t2*3", k),
+		fmt.Sprintf("{\n\tvar t1, t2 uint64 = sink, %d\n\tsink = t1 * t2\n}", k+1),
+		fmt.Sprintf("{\n\tvar t1 uint64 = %d\n\tvar t2 uint64 = sink\n\tt1, t2 = t2, t1\n\tsink = t1*10 + t2\n}", k),
+		fmt.Sprintf("{\n\ts3 := []uint64{sink, %d, 7}\n\tsink = sink + s3[1] + s3[2]\n}", k),
+		fmt.Sprintf("{\n\tvar arr [3]uint64\n\tarr[1] = sink\n\tsink = sink + arr[1] + %d\n}", k),
+		fmt.Sprintf("{\n\tsl := make([]uint64, 2)\n\tsl[1] = sink\n\tsl[1]++\n\tsink = sl[1] + %d\n}", k),
+		fmt.Sprintf("{\n\tvar cnt int = %d\n\tcnt = cnt - 9\n\tif cnt < 0 {\n\t\tsink = sink + 1\n\t}\n}", k),
+		fmt.Sprintf("defer func() {\n\tsink = sink + %d\n}()", k),
+		fmt.Sprintf("{\n\tf1 := func() {\n\t\tsink = sink + %d\n\t}\n\tf1()\n\tf1()\n}", k),
+	)
+	if g.inLoop == 0 {
+		cands = append(cands,
+			fmt.Sprintf("for i9 := uint64(0); i9 < 4; i9++ {\n\tif i9 == %d {\n\t\tsink = sink + 7\n\t\tbreak\n\t}\n\tsink = sink + 1\n}", k%4),
+			fmt.Sprintf("outer9:\n\tfor i9 := uint64(0); i9 < 3; i9++ {\n\t\tfor j9 := uint64(0); j9 < 3; j9++ {\n\t\t\tif j9 == %d {\n\t\t\t\tcontinue outer9\n\t\t\t}\n\t\t\tsink = sink + 1\n\t\t}\n\t}", k%3),
+			fmt.Sprintf("for i9 := range %d {\n\tsink = sink + uint64(i9)\n}", k),
+		)
+	}
+	if ret != "" {
+		cands = append(cands,
+			fmt.Sprintf("if sink > %d {\n\tsink = sink + 1\n\tif sink %% 2 == 0 {\n\t\t%s\n\t}\n}", k, ret),
+			fmt.Sprintf("if sink > %d {\n\t%s\n} else {\n\tsink = sink + 5\n}", k, ret),
+			fmt.Sprintf("for i9 := uint64(0); i9 < 4; i9++ {\n\tif i9 + sink == %d {\n\t\t%s\n\t}\n}", k+2, ret),
+		)
+	}
+	if g.inLoop > 0 && u == uLoop {
+		cands = append(cands,
+			fmt.Sprintf("if sink > %d {\n\tsink = sink + 1\n\tif sink %% 2 == 0 {\n\t\tbreak\n\t}\n}", k),
+			fmt.Sprintf("if sink > %d {\n\tsink = sink + 1\n\tif sink %% 2 == 0 {\n\t\tcontinue\n\t}\n}", k),
+			fmt.Sprintf("if sink %% 2 == 0 {\n\tsink = sink + 3\n\tbreak\n} else {\n\tsink = sink + 1\n}"),
+		)
+	}
+	g.lookup("sink").used = true
+	return &Stmt{Op: "raw", Raw: rng.Pick(g.r, cands)}
+}
+
+func joinStr(xs []string, sep string) string {
+	out := ""
+	for i, x := range xs {
+		if i > 0 {
+			out += sep
+		}
+		out += x
+	}
+	return out
+}
+
 func (g *gen) stmt1(u usage, depth int, ss *[]*Stmt, results []*Type) *Stmt {
+	if g.cfg.Inject && g.injected < 2 && g.r.Intn(6) == 0 {
+		g.injected++
+		return g.inject(u, results)
+	}
 	for tries := 0; tries < 10; tries++ {
 		switch g.r.Intn(20) {
 		case 0, 1, 2:
@@ -743,7 +839,7 @@ func (g *gen) stmt1(u usage, depth int, ss *[]*Stmt, results []*Type) *Stmt {
 			return s
 		case 13:
 			// nested block
-			if depth <= 0 {
+			if depth <= 0 || g.cfg.NoBlocks {
 				continue
 			}
 			return &Stmt{Op: "block", Body: g.block(uLocal, depth-1, 1+g.r.Intn(2), nil, nil)}
@@ -808,7 +904,7 @@ func (g *gen) stmt1(u usage, depth int, ss *[]*Stmt, results []*Type) *Stmt {
 			return s
 		case 18:
 			// multiple results
-			if !g.cfg.MultiRes || g.inLoop > 0 {
+			if !g.cfg.MultiRes || g.inLoop > 0 || g.cfg.NoCalls {
 				continue
 			}
 			var cands []*Func
@@ -901,12 +997,13 @@ func (g *gen) mapStmt(ss *[]*Stmt) *Stmt {
 	case 2:
 		return &Stmt{Op: "expr", E: &Expr{Op: "call", Name: "delete", Args: []*Expr{Var(m), key()}}}
 	default:
+		k := key()
 		a, b := g.fresh(false), g.fresh(false)
 		va := g.newVar(a, m.t.Elem, false, ss)
 		vb := g.newVar(b, TBool, false, ss)
 		g.declare(va)
 		g.declare(vb)
-		return &Stmt{Op: "define2", Name: a, Name2: b, E: mk("index", m.t.Elem, Var(m), key())}
+		return &Stmt{Op: "define2", Name: a, Name2: b, E: mk("index", m.t.Elem, Var(m), k)}
 	}
 }
 
@@ -958,7 +1055,7 @@ func (g *gen) structStmt(ss *[]*Stmt) *Stmt {
 }
 
 func (g *gen) methodStmt(ss *[]*Stmt) *Stmt {
-	if !g.cfg.Methods || g.inLoop > 0 {
+	if !g.cfg.Methods || g.inLoop > 0 || g.cfg.NoCalls {
 		return nil
 	}
 	var cands []*Func
@@ -1006,6 +1103,7 @@ func (g *gen) function(name string, recv *Param) *Func {
 	f := &Func{Name: name, Recv: recv}
 	g.fn = f
 	g.nv = 0
+	g.injected = 0
 	g.deps = map[string]bool{}
 	g.frames = nil
 	var pre []*varInfo
